@@ -277,4 +277,4 @@ _add("C18", "tmoc_ranges_contains_exactly / fmoc_ranges_contains_exactly now hol
 _add("C19", "After the bug hunt: `from timerange` with empty and reversed ranges, empty lists of regions (`from cones|multi|pos`), `--moc-id` of every length around the capacity of a FITS card (repaired 3c6b81c 49f5a2b 2f9e313 6fedaa8).")
 _add("C20", "After the bug hunt the four descent theorems carry the STRICT inequality of the property (a threshold exactly on a sub-cell boundary cuts nothing and is met exactly; the code was off by a whole piece, repaired b3d1506; the model has the guards "
             "of the repaired code and the reverse lower descent recurses into itself, d3d6aa3), the harness judges the implementation with the exact sum of the pieces really cut, thresholds on every quarter / finest-piece boundary in both density orders are generated, "
-            "and the sky-map reader is driven with skipped, UNSEEN and NaN pixels against the model (repaired 655082e). The whole-selection theorem selection_mass_bracket still states `<=`.")
+            "and the sky-map reader is driven with skipped, UNSEEN and NaN pixels against the model (repaired 655082e). The whole-selection theorem selection_mass_bracket carries the strict inequality too (third conjunct; equality when no boundary cell is descended into).")
